@@ -47,6 +47,8 @@ impl Bytes {
 #[serde(tag = "c")]
 pub enum ClaimsSpec {
     Raw { bytes: Bytes },
+    /// raw bytes under the encoding with header suffix "c"
+    RawC { bytes: Bytes },
     Probe { bytes: Bytes },
     Json { value: serde_json::Value },
     Reg { claims: RegSpec },
@@ -58,6 +60,7 @@ impl ClaimsSpec {
     pub fn kind(&self) -> PayloadKind {
         match self {
             ClaimsSpec::Raw { .. } => PayloadKind::Raw,
+            ClaimsSpec::RawC { .. } => PayloadKind::RawC,
             ClaimsSpec::Probe { .. } => PayloadKind::Probe,
             ClaimsSpec::Json { .. } => PayloadKind::Json,
             ClaimsSpec::Reg { .. } | ClaimsSpec::RegNow { .. } => PayloadKind::Reg,
@@ -171,7 +174,22 @@ pub enum Step {
         pair_with: Option<usize>,
     },
     /// the reference implementation issues a token (C03)
-    RefSeal { tok: usize, family: u8, key: usize, purpose: Purp, payload: Bytes, footer: Bytes, aad: Bytes, nonce: Bytes },
+    RefSeal {
+        tok: usize,
+        family: u8,
+        key: usize,
+        purpose: Purp,
+        payload: Bytes,
+        footer: Bytes,
+        aad: Bytes,
+        nonce: Bytes,
+        /// encoding suffix of the header ("" or "c")
+        #[serde(default)]
+        suffix: String,
+    },
+    /// token refresh: a node unseals token `from` and seals the object that came out of it again
+    /// (optionally with new claims / assertion), giving token `tok`
+    Reseal { tok: usize, from: usize, node: usize, ukey: usize, skey: usize, claims: Option<ClaimsSpec>, aad: Bytes, rng: RngSpec, now_ns: Ns },
     Wrap {
         blob: usize,
         node: usize,
@@ -278,6 +296,7 @@ impl Step {
             Step::Seal { .. } => "Seal",
             Step::Deliver { .. } => "Deliver",
             Step::RefSeal { .. } => "RefSeal",
+            Step::Reseal { .. } => "Reseal",
             Step::Wrap { .. } => "Wrap",
             Step::Unwrap { .. } => "Unwrap",
             Step::RefWrap { .. } => "RefWrap",
